@@ -39,7 +39,7 @@ fn bb_strategy() -> impl Strategy<Value = BbCase> {
 	let pos = proptest::sample::select(vec![Pos::NewAccount, Pos::NewOrder, Pos::Authz(0), Pos::Chall(0), Pos::AuthzPoll(0), Pos::OrderReady, Pos::Finalize, Pos::OrderValid, Pos::Cert, Pos::AccountUpdate, Pos::KeyChange]);
 	let eab = proptest::option::weighted(
 		0.3,
-		(proptest::sample::select(vec!["HS256", "HS384", "HS512"]), proptest::collection::vec(any::<u8>(), 16..64), "[a-zA-Z0-9_-]{4,20}").prop_map(|(a, k, kid)| (a.to_string(), k, kid)),
+		(proptest::sample::select(vec!["HS256", "HS384", "HS512"]), proptest::collection::vec(any::<u8>(), 16..=160), "[a-zA-Z0-9_-]{4,20}").prop_map(|(a, k, kid)| (a.to_string(), k, kid)),
 	);
 	(
 		gen::key_type_strategy(),
@@ -260,7 +260,8 @@ fn pr_strategy(key_type: &'static str, count: usize) -> impl Strategy<Value = Pr
 fn mac_strategy() -> impl Strategy<Value = PrCase> {
 	(
 		proptest::sample::select(vec!["HS256", "HS384", "HS512"]),
-		proptest::collection::vec(any::<u8>(), 1..128),
+		// around both HMAC block sizes (64 for SHA-256, 128 for SHA-384/512) and beyond
+		prop_oneof![3 => proptest::collection::vec(any::<u8>(), 1..=200), 1 => proptest::sample::select(vec![63usize, 64, 65, 127, 128, 129, 131]).prop_flat_map(|n| proptest::collection::vec(any::<u8>(), n))],
 		proptest::collection::vec(any::<u8>(), 0..1024),
 		"https://[a-z]{1,12}\\.example/new-acct",
 		"[A-Za-z0-9_-]{1,40}",
